@@ -140,6 +140,124 @@ pub fn check_header(c: &HeaderCase, col: &Collector) -> CheckResult {
     Ok(())
 }
 
+
+// ------------------------------------------------------------------ large objects (LEB128 boundaries)
+
+/// Objects whose counts, lengths and attribute ids cross 127/128: strict round-trips, codec
+/// agreement and use of the deserialized objects.
+pub fn big_objects(col: &Collector) -> CheckResult {
+    let cc = Covercrypt::default();
+    let e = |e: Error| Fail::new("big-objects-failed", short_err(&e));
+    let (mut msk, _) = cc.setup().map_err(e)?;
+    // push the attribute ids beyond 127: 140 temporary attributes are created and deleted
+    msk.access_structure.add_anarchy("TMP".into()).map_err(e)?;
+    for i in 0..140 {
+        msk.access_structure.add_attribute(qa("TMP", &format!("t{i}")), hint(false), None).map_err(e)?;
+    }
+    msk.access_structure.del_dimension("TMP").map_err(e)?;
+    let spec = crate::gen::big_spec();
+    spec.build(&mut msk.access_structure).map_err(e)?;
+    let mpk = cc.update_msk(&mut msk).map_err(e)?;
+    let sb = rt(&msk.access_structure, "AccessStructure")?;
+    let ws = WStructure::decode(&sb).map_err(|e| Fail::new("codec-cannot-decode-structure", e))?;
+    if ws.encode() != sb {
+        return Err(Fail::new("codec-reencode-differs-structure", "big structure".to_string()));
+    }
+    let ids: Vec<u64> = ws.dims.iter().flat_map(|d| d.attrs.iter().map(|a| a.id)).collect();
+    if ids.iter().any(|i| *i < 140) || ids.iter().collect::<std::collections::BTreeSet<_>>().len() != ids.len() {
+        return Err(Fail::new("big-attribute-ids", format!("ids after 140 deleted attributes: {ids:?}")));
+    }
+    let pol = |s: &crate::gen::RPolicy| s.to_ast();
+    let all_sec: Vec<String> = spec.dims[0].attrs.iter().map(|a| a.0.clone()).collect();
+    let d2 = spec.dims[2].name.clone();
+    let every = crate::gen::RPolicy {
+        broadcast: false,
+        groups: vec![vec![
+            ("SEC".to_string(), all_sec.clone()),
+            ("DPT".to_string(), spec.dims[1].attrs.iter().map(|a| a.0.clone()).collect()),
+            (d2.clone(), spec.dims[2].attrs.iter().map(|a| a.0.clone()).collect()),
+            ("CTR".to_string(), spec.dims[3].attrs.iter().map(|a| a.0.clone()).collect()),
+        ]],
+        shape: 0,
+    };
+    // keys: broadcast (all 630 rights), the top security level, one narrow key
+    let mut k_all = cc.generate_user_secret_key(&mut msk, &AccessPolicy::Broadcast).map_err(e)?;
+    let k_top = cc.generate_user_secret_key(&mut msk, &AccessPolicy::Term(qa("SEC", &all_sec[5]))).map_err(e)?;
+    let k_narrow = cc.generate_user_secret_key(&mut msk, &pol(&crate::gen::RPolicy::single(&[("SEC", &all_sec[1]), ("DPT", "d0"), ("CTR", "c1")]))).map_err(e)?;
+    // an encapsulation with 6*5*4*2 = 240 targets, and a small one for the long-named attribute
+    let (s_many, x_many) = cc.encaps(&mpk, &pol(&every)).map_err(e)?;
+    let (s_long, x_long) = cc.encaps(&mpk, &AccessPolicy::Term(qa("SEC", &all_sec[1]))).map_err(e)?;
+    if x_many.count() != 240 {
+        return Err(Fail::new("big-target-count", format!("{} targets, expected 240", x_many.count())));
+    }
+    // rotate part of the rights twice and refresh the broadcast key keeping old secrets (3 revisions)
+    let _ = cc.rekey(&mut msk, &AccessPolicy::Term(qa("DPT", "d0"))).map_err(e)?;
+    let mpk2 = cc.rekey(&mut msk, &AccessPolicy::Term(qa("DPT", "d0"))).map_err(e)?;
+    cc.refresh_usk(&mut msk, &mut k_all, true).map_err(e)?;
+    // strict round-trips + codec
+    let mb = rt(&msk, "MasterSecretKey")?;
+    let wm = WMsk::decode(&mb).map_err(|e| Fail::new("codec-cannot-decode-msk", e))?;
+    if wm.encode() != mb || wm.rights.len() != 630 {
+        return Err(Fail::new("big-msk-codec", format!("{} rights decoded", wm.rights.len())));
+    }
+    let pb = rt(&mpk2, "MasterPublicKey")?;
+    let wp = WMpk::decode(&pb).map_err(|e| Fail::new("codec-cannot-decode-mpk", e))?;
+    if wp.encode() != pb || wp.keys.len() != 630 {
+        return Err(Fail::new("big-mpk-codec", format!("{} keys decoded", wp.keys.len())));
+    }
+    let ub = rt(&k_all, "UserSecretKey")?;
+    let wu = WUsk::decode(&ub).map_err(|e| Fail::new("codec-cannot-decode-usk", e))?;
+    let three = wu.rights.iter().filter(|(_, c)| c.len() == 3).count();
+    if wu.encode() != ub || wu.rights.len() != 630 || three == 0 {
+        return Err(Fail::new("big-usk-codec", format!("{} rights, {} with three revisions", wu.rights.len(), three)));
+    }
+    let xb = rt(&x_many, "XEnc")?;
+    let wx = WXEnc::decode(&xb).map_err(|e| Fail::new("codec-cannot-decode-xenc", e))?;
+    if wx.encode() != xb || wx.encs.len() != 240 || xb.len() != WXEnc::formula_len(2, wx.hyb, 240) {
+        return Err(Fail::new("big-xenc-codec", format!("{} components, {} bytes", wx.encs.len(), xb.len())));
+    }
+    // deserialized objects are interchangeable with the originals
+    let k_all2: UserSecretKey = de(&ub).map_err(|e| Fail::new("roundtrip-deserialize-failed:UserSecretKey", e))?;
+    let x_many2: XEnc = de(&xb).map_err(|e| Fail::new("roundtrip-deserialize-failed:XEnc", e))?;
+    let mut msk2: MasterSecretKey = de(&mb).map_err(|e| Fail::new("roundtrip-deserialize-failed:MasterSecretKey", e))?;
+    let mpk3: MasterPublicKey = de(&pb).map_err(|e| Fail::new("roundtrip-deserialize-failed:MasterPublicKey", e))?;
+    let opens = |k: &UserSecretKey, x: &XEnc, s: &[u8]| -> Result<bool, Fail> {
+        match cc.decaps(k, x) {
+            Ok(Some(v)) if v.to_vec() == s => Ok(true),
+            Ok(None) => Ok(false),
+            Ok(Some(_)) => Err(Fail::new("wrong-secret", "big objects".to_string())),
+            Err(er) => Err(Fail::new("decaps-error-on-valid-objects", short_err(&er))),
+        }
+    };
+    let expect = [
+        ("broadcast key (deserialized, 3 revisions) / 240-target encapsulation (deserialized)", opens(&k_all2, &x_many2, &s_many[..])?, true),
+        ("top-level key / 240-target encapsulation", opens(&k_top, &x_many2, &s_many[..])?, true),
+        ("narrow key / 240-target encapsulation", opens(&k_narrow, &x_many, &s_many[..])?, true),
+        ("narrow key / long-named attribute", opens(&k_narrow, &x_long, &s_long[..])?, true),
+        ("top-level key / long-named lower attribute", opens(&k_top, &x_long, &s_long[..])?, true),
+    ];
+    for (what, got, want) in expect {
+        col.eval(1);
+        if got != want {
+            return Err(Fail::new("big-objects-verdict", format!("{what}: opens={got}, expected {want}")));
+        }
+        col.nontrivial(&("big", what));
+    }
+    // the deserialized master key keeps working: refresh, new key, new encapsulation under the deserialized public key
+    let mut k = k_narrow.clone();
+    cc.refresh_usk(&mut msk2, &mut k, false).map_err(|er| Fail::new("big-refresh-failed", short_err(&er)))?;
+    let (s3, x3) = cc.encaps(&mpk3, &pol(&crate::gen::RPolicy::single(&[("SEC", &all_sec[0]), ("DPT", "d0")]))).map_err(e)?;
+    if !opens(&k, &x3, &s3[..])? {
+        return Err(Fail::new("big-objects-verdict", "refreshed narrow key cannot open an encapsulation under the deserialized public key".to_string()));
+    }
+    if opens(&k_narrow, &x3, &s3[..])? {
+        return Err(Fail::new("big-objects-verdict", "stale narrow key opens an encapsulation made after two rekeys of its right".to_string()));
+    }
+    col.class("big-objects:verified");
+    col.sample(|| json!({"kind": "big-objects", "rights": 630, "targets": 240, "msk_bytes": mb.len(), "usk_bytes": ub.len(), "xenc_bytes": xb.len(), "min_attribute_id": ids.iter().min()}));
+    Ok(())
+}
+
 // ------------------------------------------------------------------ golden vectors
 
 fn hexfield(v: &serde_json::Value, k: &str) -> Result<Vec<u8>, Fail> {
@@ -268,10 +386,14 @@ pub fn run(ctx: &Ctx, col: &Collector) -> Meta {
         report_fail(col, "golden", f, json!({"config": wire::CONFIG}));
         return meta();
     }
+    if let Err(f) = crate::runner::guarded(|| big_objects(col)) {
+        report_fail(col, "big-objects", f, json!({"config": wire::CONFIG}));
+        return meta();
+    }
     run_cases(&ctx.run_cfg(ctx.n(1500, 30_000), 2), "header", header_strategy, col, check_header);
     let h = hc(ctx.thorough);
     run_hist(ctx, col, &h, ctx.n(3000, 50_000));
-    for c in ["header:metadata-absent", "header:metadata-empty", "header:metadata-non-empty", "golden:verified"] {
+    for c in ["header:metadata-absent", "header:metadata-empty", "header:metadata-non-empty", "golden:verified", "big-objects:verified"] {
         if col.class_count(c) == 0 && !col.stopped() {
             col.note(format!("generator unhealthy: class {c} empty"));
         }
@@ -296,6 +418,7 @@ pub fn replay(kind: &str, case: &serde_json::Value, col: &Collector) -> CheckRes
             check_header(&c, col)
         }
         "golden" => golden(col),
+        "big-objects" => big_objects(col),
         k => Err(Fail::new("replay-format", format!("unknown kind {k}"))),
     }
 }
